@@ -303,6 +303,7 @@ class Report:
         self.coverage = {}
         self.assumptions = []
         self.tool_errors = []
+        shutil.rmtree(REPLAYS / pid, ignore_errors=True)
 
     def violation(self, key, what, payload):
         f = match_finding(self.findings, key)
